@@ -1,13 +1,14 @@
 (* Evaluation entry point of the correspondence stream env-history (harness/c09.py).       *)
 From Coq Require Import List Bool String ZArith.
-From PV Require Import Base.Exn Model.EnvSwitch Spec.EnvSpec Gen.EnvSwitch.
+From PV Require Import Base.Exn Model.EnvSwitch Spec.EnvSpec Gen.Env.
 Import ListNotations.
 Open Scope Z_scope.
 
 Definition the_model : switch_model :=
-  {| sm_prog := Gen.EnvSwitch.is_enabled_prog; sm_enable := Gen.EnvSwitch.enable_pedantic_prog;
-     sm_disable := Gen.EnvSwitch.disable_pedantic_prog; sm_routes := Gen.EnvSwitch.switch_routes;
-     sm_refs := Gen.EnvSwitch.env_refs |}.
+  {| sm_var := Gen.Env.env_var_name; sm_paths := Gen.Env.enabled_paths;
+     sm_prog := Gen.Env.is_enabled_prog; sm_enable := Gen.Env.enable_pedantic_prog;
+     sm_disable := Gen.Env.disable_pedantic_prog; sm_routes := Gen.Env.switch_routes;
+     sm_refs := Gen.Env.env_refs |}.
 
 Definition enc_obs (o : obs) : Z :=
   match o with
@@ -27,14 +28,15 @@ Definition dk (n : Z) : dkind :=
   end.
 
 (* ops: [0; v] setenv (v: 0 -> "0", 1 -> "1", 2 -> "2", 3 -> "", 4 -> "true"), [1] unsetenv, [2] enable, [3] disable,
-   [4; d] decorate, [5; i] call *)
+   [4; d; ...] decorate (further entries describe the target for the implementation worker; the model, like the
+   statement, does not depend on them), [5; i] call *)
 Definition dec_op (l : list Z) : op :=
   match l with
   | [0; v] => OSetenv (match v with 0 => "0" | 1 => "1" | 2 => "2" | 3 => "" | _ => "true" end)%string
   | [1] => OUnsetenv
   | [2] => OEnable
   | [3] => ODisable
-  | [4; d] => ODecorate (dk d) 0
+  | 4 :: d :: _ => ODecorate (dk d) 0
   | [5; i] => OCall (Z.to_nat i)
   | _ => OUnsetenv
   end.
